@@ -19,10 +19,11 @@ structure FrontOK (st : Static) (nodes : List AstNode) (d0 : Defs) : Prop where
   instrKnown : ∀ pre src ref post, nodes = pre ++ .instr src (some ref) :: post →
     (d0.instrs.getD ref default).known = true →
     ∀ c ∈ (d0.instrs.getD ref default).cands, matchKnown st.decls d0 (ctxAfter st [] pre) 64 c.m = true
-  dataKnown : ∀ pre sz es refs post k, nodes = pre ++ .data sz es refs :: post →
+  dataKnown : ∀ pre sz es refs post k, nodes = pre ++ .data sz es refs :: post → k < es.length →
     (d0.datas.getD (refs.getD k 0) default).known = true → staticallyKnown pureP (es.getD k default) = true
   dataPos : ∀ pre sz es refs post k pre' sz' es' refs' post' k', nodes = pre ++ .data sz es refs :: post →
-    nodes = pre' ++ .data sz' es' refs' :: post' → refs.getD k 0 = refs'.getD k' 0 → sz' = sz ∧ es'.getD k' default = es.getD k default
+    nodes = pre' ++ .data sz' es' refs' :: post' → k < es.length → k' < es'.length → refs.getD k 0 = refs'.getD k' 0 →
+    sz' = sz ∧ es'.getD k' default = es.getD k default
   labelNotKnown : ∀ l nm ne r, AstNode.symbol l nm .label ne (some r) ∈ nodes → (d0.sym r).known = false
   j : ∀ r, (d0.sym r).known = true → (d0.sym r).value ≠ .unknown → (d0.sym r).resolved = true
   params : ParamsOK d0
@@ -40,7 +41,7 @@ def IW (st : Static) (nodes : List AstNode) (d0 d : Defs) (ref : Nat) : Prop :=
 
 /-- the witness of a marked data element -/
 def DW (st : Static) (nodes : List AstNode) (d : Defs) (ref : Nat) : Prop :=
-  ∀ pre sz es refs post k, nodes = pre ++ .data sz es refs :: post → refs.getD k 0 = ref →
+  ∀ pre sz es refs post k, nodes = pre ++ .data sz es refs :: post → k < es.length → refs.getD k 0 = ref →
     ∃ v c b0, (∀ s ctx, resolverEval st s ctx {} (es.getD k default) = .ok (v, c)) ∧ dataEnc true v = .ok (some b0) ∧
       dataCheck true sz (some b0) = .ok () ∧ (d.datas.getD ref default).encoding = dataSlice sz b0
 
@@ -74,7 +75,7 @@ theorem sym_known_inrange (d : Defs) (r : Nat) (h : (d.sym r).known = true) : r 
 /-- **one resolver step preserves the invariant** -/
 theorem dispatch_good (st : Static) (nodes : List AstNode) (d0 d d' : Defs) (f : FrontOK st nodes d0)
     (pre : List AstNode) (n : AstNode) (post : List AstNode) (hsplit : nodes = pre ++ n :: post)
-    (ctx : RCtx) (hctx : ctx.symCtx = ctxAfter st [] (pre ++ [n])) (k : Nat) (s : Bool) (rep : List String)
+    (ctx : RCtx) (hctx : ctx.symCtx = ctxAfter st [] (pre ++ [n])) (k : Nat) (hkr : k < nodeElems n) (s : Bool) (rep : List String)
     (g : Good st nodes d0 d)
     (phase : (ctx.first = true ∧ st.opts.optStatic = true) ∨ (ctx.first = false ∧ K3 nodes d0 d))
     (h : dispatch st d ctx n k = .ok (d', s, rep)) : Good st nodes d0 d' := by
@@ -147,18 +148,19 @@ theorem dispatch_good (st : Static) (nodes : List AstNode) (d0 d d' : Defs) (f :
   · -- data witnesses
     intro ref hres'
     by_cases hres : (d.datas.getD ref default).resolved = true
-    · intro pre' sz es refs post' k' hs' hr'
-      obtain ⟨v, c, b0, w1, w2, w3, w4⟩ := g.hd ref hres pre' sz es refs post' k' hs' hr'
+    · intro pre' sz es refs post' k' hs' hk' hr'
+      obtain ⟨v, c, b0, w1, w2, w3, w4⟩ := g.hd ref hres pre' sz es refs post' k' hs' hk' hr'
       exact ⟨v, c, b0, w1, w2, w3, by rw [fr.dfz ref hres]; exact w4⟩
     · have hres0 : (d.datas.getD ref default).resolved = false := by simpa using hres
-      obtain ⟨sz, es, refs, hn, hrk, _, _, hkn, v, c, b0, hev, hen, hck, henc⟩ :=
+      obtain ⟨sz, es, refs, hn, hrk, _, _, hknown, v, c, b0, hev, hen, hck, henc⟩ :=
         dispatch_new_data_mark st d d' ctx n k s rep h ref hres0 hres'
       subst hn
-      intro pre' sz' es' refs' post' k' hs' hr'
-      obtain ⟨e1, e2⟩ := f.dataPos pre sz es refs post k pre' sz' es' refs' post' k' hsplit hs' (by rw [hrk, hr'])
+      have hkl : k < es.length := by simpa [nodeElems] using hkr
+      intro pre' sz' es' refs' post' k' hs' hk' hr'
+      obtain ⟨e1, e2⟩ := f.dataPos pre sz es refs post k pre' sz' es' refs' post' k' hsplit hs' hkl hk' (by rw [hrk, hr'])
       rw [e1, e2]
       have hpure : staticallyKnown pureP (es.getD k default) = true :=
-        f.dataKnown pre sz es refs post k hsplit (by rw [hrk, ← g.dk ref]; exact hkn)
+        f.dataKnown pre sz es refs post k hsplit hkl (by rw [hrk, ← g.dk ref]; exact hknown)
       refine ⟨v, c, b0, fun s2 ctx2 => ?_, hen, hck, henc⟩
       rw [pure_static_eval st d s2 ctx ctx2 _ hpure]; exact hev
 
@@ -178,7 +180,7 @@ theorem ctxAfter_snoc (st : Static) (sc : List String) (pre : List AstNode) (n :
 
 theorem passNode_good (st : Static) (nodes : List AstNode) (d0 : Defs) (f : FrontOK st nodes d0) (first last : Bool)
     (pre : List AstNode) (n : AstNode) (post : List AstNode) (hsplit : nodes = pre ++ n :: post)
-    (ps ps' : PassSt) (k : Nat) (g : Good st nodes d0 ps.defs)
+    (ps ps' : PassSt) (k : Nat) (hkn : k < nodeElems n) (g : Good st nodes d0 ps.defs)
     (hsc : stepCtx st ps.symCtx n = ctxAfter st [] (pre ++ [n]))
     (ph : PhaseOK st nodes d0 first pre ps.defs)
     (h : passNode st first last ps n k = .ok ps') :
@@ -204,7 +206,7 @@ theorem passNode_good (st : Static) (nodes : List AstNode) (d0 : Defs) (f : Fron
           | true => simp only [if_true] at ph; exact Or.inl ⟨rfl, ph.1⟩
           | false => simp only [Bool.false_eq_true, if_false] at ph; exact Or.inr ⟨rfl, ph⟩
         have g' := dispatch_good st nodes d0 ps.defs defs f pre n post hsplit
-          ⟨first, last, stepCtx st ps.symCtx n, it.bank, it.pos⟩ hsc k stable reported g phase hd
+          ⟨first, last, stepCtx st ps.symCtx n, it.bank, it.pos⟩ hsc k hkn stable reported g phase hd
         have sf := dispatch_symframe st ps.defs defs _ n k stable reported hd
         refine ⟨g', hsc, ?_, ?_⟩
         · unfold PhaseOK at ph ⊢
@@ -229,7 +231,7 @@ theorem passNode_good (st : Static) (nodes : List AstNode) (d0 : Defs) (f : Fron
 
 theorem go_good (st : Static) (nodes : List AstNode) (d0 : Defs) (f : FrontOK st nodes d0) (first last : Bool)
     (pre : List AstNode) (n : AstNode) (post : List AstNode) (hsplit : nodes = pre ++ n :: post) :
-    ∀ (fuel k : Nat) (ps ps' : PassSt), Good st nodes d0 ps.defs →
+    ∀ (fuel k : Nat) (ps ps' : PassSt), k + fuel ≤ nodeElems n → Good st nodes d0 ps.defs →
       stepCtx st ps.symCtx n = ctxAfter st [] (pre ++ [n]) → PhaseOK st nodes d0 first pre ps.defs →
       passNodes.go st first last n k fuel ps = .ok ps' →
       Good st nodes d0 ps'.defs ∧ stepCtx st ps'.symCtx n = ctxAfter st [] (pre ++ [n]) ∧ PhaseOK st nodes d0 first pre ps'.defs ∧
@@ -239,22 +241,22 @@ theorem go_good (st : Static) (nodes : List AstNode) (d0 : Defs) (f : FrontOK st
   intro fuel
   induction fuel with
   | zero =>
-    intro k ps ps' g hsc ph h
+    intro k ps ps' _ g hsc ph h
     simp only [passNodes.go] at h
     injection h with h; subst h
     exact ⟨g, hsc, ph, fun h => absurd h (Nat.lt_irrefl 0), fun _ => rfl, fun h => absurd h (Nat.lt_irrefl 0)⟩
   | succ fl ih =>
-    intro k ps ps' g hsc ph h
+    intro k ps ps' hkf g hsc ph h
     simp only [passNodes.go] at h
     cases hp : passNode st first last ps n k with
     | error m => rw [hp] at h; cases h
     | ok ps1 =>
       rw [hp] at h
       simp only at h
-      obtain ⟨g1, sc1, ph1, r1⟩ := passNode_good st nodes d0 f first last pre n post hsplit ps ps1 k g hsc ph hp
+      obtain ⟨g1, sc1, ph1, r1⟩ := passNode_good st nodes d0 f first last pre n post hsplit ps ps1 k (by omega) g hsc ph hp
       have hsc1 : stepCtx st ps1.symCtx n = ctxAfter st [] (pre ++ [n]) := by
         rw [sc1, ← hsc, stepCtx_idem]
-      obtain ⟨g2, sc2, ph2, c2, c3, r2⟩ := ih (k + 1) ps1 ps' g1 hsc1 ph1 h
+      obtain ⟨g2, sc2, ph2, c2, c3, r2⟩ := ih (k + 1) ps1 ps' (by omega) g1 hsc1 ph1 h
       refine ⟨g2, sc2, ph2, fun _ => ?_, fun h0 => (by cases h0), fun _ hf l nm e ne r hn hk => ?_⟩
       · cases fl with
         | zero => rw [c3 rfl]; exact sc1
@@ -286,7 +288,7 @@ theorem passNodes_good (st : Static) (nodes : List AstNode) (d0 : Defs) (f : Fro
       rw [hg] at h
       simp only at h
       have hsc0 : stepCtx st ps.symCtx n = ctxAfter st [] (pre ++ [n]) := by rw [ctxAfter_snoc, hsc]
-      obtain ⟨g1, _, ph1, c1, c0, r1⟩ := go_good st nodes d0 f first last pre n rest hs (nodeElems n) 0 ps ps1 g hsc0 ph hg
+      obtain ⟨g1, _, ph1, c1, c0, r1⟩ := go_good st nodes d0 f first last pre n rest hs (nodeElems n) 0 ps ps1 (by omega) g hsc0 ph hg
       have hsc1 : ps1.symCtx = ctxAfter st [] (pre ++ [n]) := by
         cases hz : nodeElems n with
         | zero =>
